@@ -42,3 +42,14 @@ let install register get getn geti getb =
     | Some c ->
       Printf.sprintf "call=%s:%s:%s:%s:%s:%s" (entry_s c.c_entry) (meth_s c.c_meth) (hex_of_bytes c.c_path) (hex_of_bytes c.c_target)
         (hex_of_n c.c_flags) (hex_of_bytes c.c_attrs))
+
+let install_listing register get geti getb =
+  register "listing" (fun kv ->
+    let size = geti kv "n" and b = geti kv "b" and style = geti kv "style" and k = geti kv "k" in
+    let dots = getb kv "dots" in
+    let names = (if dots then ["."; ".."] else []) @ List.init size (fun i -> "e" ^ string_of_int i) in
+    let dir = List.map bytes_of_string names in
+    let l = List.length dir in
+    let beh = scripted (nat_of_int l) (nat_of_int style) (nat_of_int k) in
+    let ((acc, reqs), ended) = client_list (nat_of_int (l + 2)) dir beh (nat_of_int b) O [] O in
+    Printf.sprintf "names=%s. reqs=%x ok=%s" (String.concat "," (List.map str_of_bytes acc)) (int_of_nat reqs) (bool_s ended))
